@@ -257,6 +257,12 @@ type state struct {
 	fsep   string       // separator contained in one name of the case ("" = none)
 	// FlattenedKeys calls on child handles left for the API walk in progress
 	handleKeysLeft int
+	// nodes of the Go value about to be rendered that are given as a *Config
+	embed map[*model.Node]*ucfg.Config
+	// names that configs embedded by the step in progress have at home
+	lastHomes map[string]bool
+	// configs whose children were embedded in a merged value: they are only read
+	pending []lent
 	// containers that lost their last named setting / last element by a removal
 	emptiedDict, emptiedList map[*model.Node]bool
 }
@@ -411,11 +417,123 @@ func (s *state) spine(d int, inner *model.Node) *model.Node {
 	return cur
 }
 
+// lent is a config made for one operand: its setting at home was placed
+// inside the Go value given to Merge/NewFrom. Afterwards it must be as before.
+type lent struct {
+	w, h *ucfg.Config
+	home []string
+	m    *model.Node
+}
+
+// toGo renders nested maps (string or interface keys) and slices; a node
+// listed in s.embed is given as the *Config that holds the same settings.
+func (s *state) toGo(n *model.Node, ikeys bool) interface{} {
+	if c := s.embed[n]; c != nil {
+		return c
+	}
+	switch {
+	case n == nil || n.Kind == model.KNil:
+		return nil
+	case n.Kind == model.KPrim:
+		return n.Prim
+	case (n.HasA || len(n.A) > 0) && len(n.D) == 0:
+		l := make([]interface{}, 0, len(n.A))
+		for _, v := range n.A {
+			l = append(l, s.toGo(v, ikeys))
+		}
+		return l
+	case ikeys:
+		m := make(map[interface{}]interface{}, len(n.D))
+		for k, v := range n.D {
+			m[k] = s.toGo(v, ikeys)
+		}
+		return m
+	}
+	m := make(map[string]interface{}, len(n.D))
+	for k, v := range n.D {
+		m[k] = s.toGo(v, ikeys)
+	}
+	return m
+}
+
+// embedSome picks containers inside n (not n itself) that the rendering will
+// hand over as a *Config instead of as Go data: a fresh root, or the child
+// handle of a config made for the purpose, stored there under another name
+// (or as a list element) than the place in n has.
+func (s *state) embedSome(n *model.Node) {
+	r := s.r
+	if !n.IsSub() || r.Intn(3) > 0 {
+		return
+	}
+	var qs [][]string
+	nodesOf(n, nil, func(x *model.Node) bool { return x.IsSub() && !blank(x) }, &qs)
+	if len(qs) > 0 && len(qs[0]) == 0 {
+		qs = qs[1:]
+	}
+	for i := 1 + r.Intn(2); i > 0 && len(qs) > 0; i-- {
+		q := qs[r.Intn(len(qs))]
+		x := at(n, q)
+		if s.embed[x] != nil {
+			continue
+		}
+		var c *ucfg.Config
+		kind := ""
+		switch r.Intn(3) {
+		case 0:
+			if fc, err := ucfg.NewFrom(x.ToGo(), s.o()...); err == nil {
+				c, kind = fc, "fresh_root"
+			}
+		case 1:
+			home := s.key(true)
+			wm := model.Dict().Set(home, x.Copy())
+			if w, err := ucfg.NewFrom(wm.ToGo(), s.o()...); err == nil {
+				if h, err := w.Child(home, -1, s.o()...); err == nil {
+					c, kind = h, "child_of_other_config"
+					s.pending = append(s.pending, lent{w, h, []string{home}, wm})
+					s.lastHomes[home] = true
+				}
+			}
+		default:
+			els := []*model.Node{model.P("x"), model.P("y"), model.P("z")}
+			i := r.Intn(len(els))
+			els[i] = x.Copy()
+			wm := model.Dict().Set("l", model.List(els...))
+			if w, err := ucfg.NewFrom(wm.ToGo(), s.o()...); err == nil {
+				if h, err := w.Child("l", i, s.o()...); err == nil {
+					c, kind = h, "element_of_other_configs_list"
+					s.pending = append(s.pending, lent{w, h, []string{"l", strconv.Itoa(i)}, wm})
+					s.lastHomes[strconv.Itoa(i)] = true
+				}
+			}
+		}
+		if c == nil {
+			continue
+		}
+		s.embed[x] = c
+		s.res.Ev("configs_inside_go_data_"+kind, 1)
+		s.noteEmbed(n, q)
+	}
+}
+
+// noteEmbed counts where in the value a config sits.
+func (s *state) noteEmbed(n *model.Node, q []string) {
+	if isList(at(n, q[:len(q)-1])) {
+		s.res.Ev("configs_inside_go_data_as_list_element", 1)
+	} else if len(q) >= 2 {
+		s.res.Ev("configs_inside_go_data_two_or_more_maps_down", 1)
+	} else {
+		s.res.Ev("configs_inside_go_data_as_top_level_map_value", 1)
+	}
+}
+
 // dotted re-spells a tree for input with PathSep: some settings of nested
 // dictionaries move up under a name joined with the separator of the case
 // ({a:{b:X,c:Y}} becomes {"a.b":X, a:{c:Y}} or {"a.b":X, "a.c":Y}), whatever
 // X is - a primitive, an object or a list. The tree described stays the same.
 func (s *state) dotted(n *model.Node, st *[3]int64) *model.Node {
+	if s.embed[n] != nil {
+		return n // given as a *Config: the node itself stands for it
+	}
 	if !n.IsSub() {
 		return n.Copy()
 	}
@@ -428,7 +546,7 @@ func (s *state) dotted(n *model.Node, st *[3]int64) *model.Node {
 	}
 	for _, k := range n.SortedKeys() {
 		c := s.dotted(n.D[k], st)
-		if !c.IsSub() || len(c.D) == 0 || len(c.A) > 0 || s.r.Intn(2) == 0 {
+		if !c.IsSub() || len(c.D) == 0 || len(c.A) > 0 || s.embed[c] != nil || s.r.Intn(2) == 0 {
 			out.D[k] = c
 			continue
 		}
@@ -459,7 +577,18 @@ func (s *state) dotted(n *model.Node, st *[3]int64) *model.Node {
 // interface keys, run-time built structs (names as tags), each of them either
 // spelled as it is or with dotted names.
 func (s *state) render(n *model.Node) (interface{}, string) {
+	if s.embed == nil {
+		s.embed = map[*model.Node]*ucfg.Config{}
+	}
+	if s.lastHomes == nil {
+		s.lastHomes = map[string]bool{}
+	}
+	s.embedSome(n)
+	defer func() { s.embed = nil }()
 	how := ""
+	if len(s.embed) > 0 {
+		how = "with-configs-inside-"
+	}
 	if s.r.Intn(3) == 0 {
 		var st [3]int64
 		if d := s.dotted(n, &st); st[0]+st[1] > 0 {
@@ -472,15 +601,15 @@ func (s *state) render(n *model.Node) (interface{}, string) {
 	var data interface{}
 	switch x := s.r.Intn(6); {
 	case x == 0:
-		data, how = gen.ToMapI(n), how+"mapi"
-	case x == 1 && n.IsSub() && !n.HasA && len(n.A) == 0:
+		data, how = s.toGo(n, true), how+"mapi"
+	case x == 1 && n.IsSub() && !n.HasA && len(n.A) == 0 && len(s.embed) == 0:
 		if v, ok := gen.ToStruct(s.r, n); ok && v != nil {
 			data, how = v, how+"struct"
 			break
 		}
 		fallthrough
 	default:
-		data, how = n.ToGo(), how+"maps"
+		data, how = s.toGo(n, false), how+"maps"
 	}
 	s.res.SetAdd("go_data_rendering", how)
 	return data, how
@@ -635,6 +764,7 @@ func flds(full []string) []model.Fld {
 // step performs one operation; returns true if the history must end.
 func (s *state) step() bool {
 	r := s.r
+	s.lastHomes = map[string]bool{}
 	op := r.Intn(25)
 	t := r.Intn(len(s.trees))
 	tr := s.trees[t]
@@ -838,7 +968,7 @@ func (s *state) step() bool {
 		}
 		var b *model.Node
 		var operand interface{}
-		fname := ""
+		fname, liveInside := "", ""
 		srcT, srcPath := -1, ""
 		if form >= 4 {
 			// a live node: the root or a child handle of another tree, or a node
@@ -886,9 +1016,63 @@ func (s *state) step() bool {
 			if !b.IsSub() || (!blank(rm) && isList(b) != isList(rm)) {
 				return false // a dictionary receiver gets a map, a list receiver a list
 			}
+			if form < 2 && r.Intn(4) == 0 {
+				// somewhere inside the Go value sits a LIVE node (root or child
+				// handle of a tree of the forest), under a name or index of its own
+				type cnd struct {
+					t int
+					q []string
+				}
+				var cands []cnd
+				for j, o := range s.trees {
+					var qs [][]string
+					nodesOf(o.m, nil, func(n *model.Node) bool { return n.IsSub() && !blank(n) }, &qs)
+					for _, q := range qs {
+						if (j != t || disjoint(q, rq)) && addressable(q) {
+							cands = append(cands, cnd{j, q})
+						}
+					}
+				}
+				var ps [][]string
+				nodesOf(b, nil, func(n *model.Node) bool { return n.IsSub() }, &ps)
+				if len(cands) > 0 {
+					L, pq := cands[r.Intn(len(cands))], ps[r.Intn(len(ps))]
+					P, lm := at(b, pq), at(s.trees[L.t].m, L.q).Copy()
+					seg, undo := "", func() {}
+					if isList(P) {
+						seg = strconv.Itoa(len(P.A))
+						P.A = append(P.A, lm)
+						undo = func() { P.A = P.A[:len(P.A)-1] }
+					} else if seg = s.key(false); P.D[seg] == nil {
+						P.Set(seg, lm)
+						undo = func() { delete(P.D, seg) }
+					} else {
+						lm = nil
+					}
+					if lm != nil {
+						h, desc, err := s.handle(L.t, L.q)
+						if err != nil || !shapesAgree(rm, b) || len(rq)+height(b) > maxDepth {
+							undo()
+						} else {
+							s.embed = map[*model.Node]*ucfg.Config{lm: h}
+							if s.lastHomes == nil {
+								s.lastHomes = map[string]bool{}
+							}
+							if len(L.q) > 0 {
+								s.lastHomes[L.q[len(L.q)-1]] = true
+							}
+							srcT, srcPath = L.t, join(L.q)
+							liveInside = fmt.Sprintf(" %s=%s", s.nm(cat(pq, []string{seg})), desc)
+							s.res.Ev("configs_inside_go_data_live_node", 1)
+							s.noteEmbed(b, cat(pq, []string{seg}))
+						}
+					}
+				}
+			}
 			// operand form: Go data, a parentless *Config, a child handle of another
 			// config; the configs stay in use as further trees while there is room
 			data, how := s.render(b)
+			how += liveInside
 			operand, fname = data, "go-data:"+how
 			switch form {
 			case 2:
@@ -1093,6 +1277,18 @@ func (s *state) verify(changed int, prev *model.Node) {
 	if s.failed {
 		return
 	}
+	// (0) configs whose settings were handed over inside a Go value were only read
+	for _, l := range s.pending {
+		var want []string
+		leafPaths(l.m, nil, &want)
+		sort.Strings(want)
+		if p, k := l.h.Path("."), l.w.FlattenedKeys(); p != join(l.home) || !eq(k, want) || (len(l.home) == 1 && l.h.Parent() != l.w) {
+			s.fail("config-inside-merged-value-disturbed", "a config stored at %v of another one was placed inside a merged Go value; afterwards its Path()=%q and the keys of its home are %v, want %v", l.home, p, k, want)
+			return
+		}
+		s.res.Ev("lent_configs_found_untouched", 1)
+	}
+	s.pending = nil
 	// (1) hook walks: stored field names and parent links, all trees
 	walks := make([][]ucfg.VerifNode, len(s.trees))
 	owners := map[uintptr]map[uintptr]bool{} // fields table -> configs using it
@@ -1118,6 +1314,10 @@ func (s *state) verify(changed int, prev *model.Node) {
 	narrow := func(t int, n ucfg.VerifNode, generic string) string {
 		if f := fieldsOf[n.Holder]; f != 0 && len(owners[f]) > 1 {
 			return "write-shows-up-in-copy-and-original"
+		}
+		if generic == "stored-field-name-wrong" && s.lastHomes[n.Field] {
+			// the name a config handed over inside a Go value has where it came from
+			return "config-inside-merged-value-keeps-the-name-it-has-at-home"
 		}
 		return s.classify(t, n.Walk, generic)
 	}
